@@ -547,3 +547,165 @@ Example split_equal_merge1_ex :
                  (VInt 7, TNode [(VInt 7, ex_leaf 17); (VInt 12, ex_leaf 22)])]) /\
   exists t', split_equal 4 (TNode ex_fiber) = Some t' /\ merge1 t' = Some (TNode ex_fiber).
 Proof. split; [vm_compute; reflexivity|]. apply split_equal_merge1; [lia|exact ex_fiber_sorted]. Qed.
+
+(* ------------------------------------------------------------ flattenRanks / unflattenRanks *)
+(* a two-level trie: sorted integer upper fiber, every child a non-empty sorted integer fiber *)
+Definition wf2 (l : list (value * trie)) : Prop :=
+  int_sorted l /\ Forall (fun ct => exists l', snd ct = TNode l' /\ int_sorted l' /\ l' <> []) l.
+
+(* the flattened fiber: tuple coordinates (a, b), upper-major *)
+Definition fl2 (l : list (value * trie)) : list (value * trie) :=
+  concat (map (fun ct => map (fun ct' => (VTuple [fst ct; fst ct'], snd ct')) (tchildren (snd ct))) l).
+
+Lemma all_some_map_in {A B} (f : A -> option B) (g : A -> B) l :
+  (forall x, In x l -> f x = Some (g x)) -> all_some (map f l) = Some (map g l).
+Proof.
+  induction l as [|x l IH]; intros H; cbn [map all_some]; [reflexivity|].
+  rewrite (H x (or_introl eq_refl)), IH; [reflexivity|]. intros y Hy. apply H. right. exact Hy.
+Qed.
+
+Lemma flatten1_eq l : wf2 l -> flatten1 (TNode l) = Some (TNode (fl2 l)).
+Proof.
+  intros [[Hk _] Hc]. unfold flatten1, fl2.
+  rewrite (all_some_map_in _ (fun ct => map (fun ct' => (VTuple [fst ct; fst ct'], snd ct')) (tchildren (snd ct)))); [reflexivity|].
+  intros ct Hct. rewrite Forall_forall in Hk, Hc. destruct (Hc _ Hct) as [l' [E [[Hk' _] _]]]. destruct (Hk _ Hct) as [a Ha].
+  rewrite E. cbn [tchildren]. f_equal. apply map_ext_in. intros ct' Hct'. rewrite Forall_forall in Hk'.
+  destruct (Hk' _ Hct') as [b Hb]. rewrite Ha, Hb. reflexivity.
+Qed.
+
+Definition uf_step (acc : trie) (ps : list value * trie) : trie :=
+  match ps with
+  | ([a; b], s) =>
+      let sub := match alookup a (tchildren acc) with Some s' => tchildren s' | None => [] end in
+      TNode (ainsert a (TNode (ainsert b s sub)) (tchildren acc))
+  | _ => acc end.
+
+Definition ps2 (l : list (value * trie)) : list (list value * trie) :=
+  concat (map (fun ct => map (fun ct' => ([fst ct; fst ct'], snd ct')) (tchildren (snd ct))) l).
+
+Lemma unflatten1_eq l : unflatten1 (TNode (fl2 l)) = Some (fold_left uf_step (ps2 l) (TNode [])).
+Proof.
+  unfold unflatten1. fold uf_step.
+  rewrite (all_some_map_in _ (fun ct => match fst ct with VTuple [a; b] => ([a; b], snd ct) | _ => ([], snd ct) end)).
+  - do 2 f_equal. unfold fl2, ps2. rewrite concat_map, map_map. f_equal. apply map_ext. intros ct. rewrite map_map. reflexivity.
+  - intros x Hx. unfold fl2 in Hx. apply in_concat in Hx. destruct Hx as [lx [H1 H2]]. apply in_map_iff in H1.
+    destruct H1 as [ct [<- _]]. apply in_map_iff in H2. destruct H2 as [ct' [<- _]]. reflexivity.
+Qed.
+
+Lemma uf_inner a pre l' : Forall int_key pre -> (forall x, In x pre -> kz x < a) -> forall cur, int_sorted (cur ++ l') ->
+  fold_left uf_step (map (fun ct' => ([VInt a; fst ct'], snd ct')) l') (TNode (pre ++ [(VInt a, TNode cur)])) =
+  TNode (pre ++ [(VInt a, TNode (cur ++ l'))]).
+Proof.
+  intros Hk Hlt. induction l' as [|ct' l' IH]; intros cur Hs; cbn [map fold_left]; [rewrite app_nil_r; reflexivity|].
+  pose proof Hs as H0. apply int_sorted_app in H0. destruct H0 as [[Hc _] [Hl Hcl]].
+  apply int_sorted_cons_inv in Hl. destruct Hl as [[b Hb] _].
+  assert (Hlt' : forall x, In x cur -> kz x < b).
+  { intros x Hx. specialize (Hcl x ct' Hx (or_introl eq_refl)). unfold kz in Hcl at 2. rewrite Hb in Hcl. exact Hcl. }
+  destruct ct' as [c s]. cbn [fst] in Hb. subst c. cbn [fst snd uf_step tchildren].
+  rewrite alookup_last by assumption. cbn [tchildren]. rewrite (ainsert_above b s cur) by assumption. rewrite ainsert_last by assumption.
+  rewrite IH; rewrite <- app_assoc; [reflexivity|exact Hs].
+Qed.
+
+Lemma uf_outer l : forall pre, int_sorted (pre ++ l) ->
+  Forall (fun ct => exists l', snd ct = TNode l' /\ int_sorted l' /\ l' <> []) l ->
+  fold_left uf_step (ps2 l) (TNode pre) = TNode (pre ++ l).
+Proof.
+  induction l as [|ct l IH]; intros pre Hs Hc; [rewrite app_nil_r; reflexivity|].
+  unfold ps2. cbn [map concat]. fold (ps2 l). rewrite fold_left_app.
+  inversion Hc as [|? ? [l' [E [Hl' Hne]]] Hc']; subst.
+  pose proof Hs as H0. apply int_sorted_app in H0. destruct H0 as [[Hk _] [Hl Hcl]].
+  apply int_sorted_cons_inv in Hl. destruct Hl as [[a Ha] _].
+  assert (Hlt : forall x, In x pre -> kz x < a).
+  { intros x Hx. specialize (Hcl x ct Hx (or_introl eq_refl)). unfold kz in Hcl at 2. rewrite Ha in Hcl. exact Hcl. }
+  destruct ct as [c t]. cbn [fst snd] in *. subst c t. cbn [tchildren].
+  destruct l' as [|ct' l']; [congruence|]. cbn [map fold_left].
+  pose proof Hl' as H1. apply int_sorted_cons_inv in H1. destruct H1 as [[b Hb] _].
+  destruct ct' as [c s]. cbn [fst] in Hb. subst c. cbn [fst snd uf_step tchildren].
+  rewrite alookup_above by assumption. cbn [ainsert]. rewrite ainsert_above by assumption.
+  rewrite (uf_inner a pre l' Hk Hlt [(VInt b, s)] Hl'). cbn [app].
+  rewrite IH; [rewrite <- app_assoc; reflexivity|rewrite <- app_assoc; exact Hs|exact Hc'].
+Qed.
+
+(* (f) flatten then unflatten is the identity on well-formed two-level tries *)
+Theorem flatten1_unflatten1 l : wf2 l ->
+  exists t', flatten1 (TNode l) = Some t' /\ unflatten1 t' = Some (TNode l).
+Proof.
+  intros H. exists (TNode (fl2 l)). split; [apply flatten1_eq; exact H|].
+  rewrite unflatten1_eq. destruct H as [Hs Hc]. rewrite (uf_outer l [] Hs Hc). reflexivity.
+Qed.
+
+(* paths are preserved up to pairing the first two coordinates, in the same order *)
+Definition pair2 (pv : list value * value) : list value * value :=
+  match fst pv with a :: b :: r => (VTuple [a; b] :: r, snd pv) | _ => pv end.
+
+Lemma paths_node l : paths (TNode l) = flat_map (fun ct => map (fun pv => (fst ct :: fst pv, snd pv)) (paths (snd ct))) l.
+Proof. reflexivity. Qed.
+
+Theorem flatten1_paths l : wf2 l -> paths (TNode (fl2 l)) = map pair2 (paths (TNode l)).
+Proof.
+  intros [_ Hc]. rewrite !paths_node. unfold fl2. induction Hc as [|ct l [l' [E _]] Hc IH]; [reflexivity|].
+  cbn [map concat flat_map]. rewrite flat_map_app, map_app, IH. f_equal. clear IH.
+  rewrite E. cbn [tchildren]. rewrite paths_node. generalize (fst ct) as a. intros a. clear E.
+  induction l' as [|ct' l' IH']; [reflexivity|]. cbn [map flat_map]. rewrite !map_app, IH'. f_equal.
+  rewrite !map_map. apply map_ext. intros pv. reflexivity.
+Qed.
+
+(* the flattened coordinates are the tuples (a, b), strictly increasing in lexicographic order *)
+Lemma vltb_tuple2 a b a' b' :
+  vltb (VTuple [VInt a; VInt b]) (VTuple [VInt a'; VInt b']) = (a <? a') || ((a =? a') && (b <? b')).
+Proof.
+  unfold vltb. cbn [vcmp as_num ncmp]. destruct (Z.compare_spec a a'); destruct (Z.ltb_spec a a'); destruct (Z.eqb_spec a a'); try lia; cbn [orb andb]; try reflexivity.
+  destruct (Z.compare_spec b b'); destruct (Z.ltb_spec b b'); try lia; reflexivity.
+Qed.
+
+Definition tuple_key (ct : value * trie) : Prop := exists a b, fst ct = VTuple [VInt a; VInt b].
+
+Theorem flatten1_lex_sorted l : wf2 l ->
+  Forall tuple_key (fl2 l) /\ StronglySorted (fun x y => vltb (fst x) (fst y) = true) (fl2 l).
+Proof.
+  intros [Hs Hc]. unfold fl2. induction Hc as [|ct l [l' [E [Hl' _]]] Hc IH]; cbn [map concat]; [split; constructor|].
+  apply int_sorted_cons_inv in Hs. destruct Hs as [[a Ha] [Hs Hlt]]. specialize (IH Hs). destruct IH as [IH1 IH2].
+  rewrite E, Ha. cbn [tchildren]. split.
+  - rewrite Forall_app. split; [|exact IH1]. rewrite Forall_forall. intros x Hx. apply in_map_iff in Hx.
+    destruct Hx as [ct' [<- Hct']]. destruct Hl' as [Hk' _]. rewrite Forall_forall in Hk'. destruct (Hk' _ Hct') as [b Hb].
+    exists a, b. cbn [fst]. rewrite Hb. reflexivity.
+  - apply SS_app. split; [|split; [exact IH2|]].
+    + destruct Hl' as [Hk' Hs']. clear E. induction Hs' as [|ct' l' Hs' IH' Hf]; cbn [map]; constructor.
+      * apply IH'. inversion Hk'; assumption.
+      * inversion Hk' as [|? ? [b Hb] Hk'']; subst. rewrite Forall_forall in *. intros x Hx. apply in_map_iff in Hx.
+        destruct Hx as [ct'' [<- Hct'']]. destruct (Hk'' _ Hct'') as [b' Hb']. specialize (Hf _ Hct'').
+        unfold kz in Hf. rewrite Hb, Hb' in Hf. cbn [fst]. rewrite Hb, Hb', vltb_tuple2.
+        destruct (Z.ltb_spec a a); [lia|]. rewrite Z.eqb_refl. cbn. lia.
+    + intros x y Hx Hy. apply in_map_iff in Hx. destruct Hx as [ct' [<- Hct']].
+      apply in_concat in Hy. destruct Hy as [ly [H1 H2]]. apply in_map_iff in H1. destruct H1 as [cu [<- Hcu]].
+      apply in_map_iff in H2. destruct H2 as [cu' [<- Hcu']]. cbn [fst].
+      rewrite Forall_forall in IH1.
+      assert (Hy : In (VTuple [fst cu; fst cu'], snd cu') (concat (map (fun ct0 => map (fun ct'0 => (VTuple [fst ct0; fst ct'0], snd ct'0)) (tchildren (snd ct0))) l))).
+      { apply in_concat. eexists. split; [apply in_map_iff; exists cu; split; [reflexivity|exact Hcu]|]. apply in_map_iff. exists cu'. split; [reflexivity|exact Hcu']. }
+      destruct (IH1 _ Hy) as [a' [b' Hab]]. cbn [fst] in Hab. injection Hab as Ha' Hb'.
+      destruct Hl' as [Hk' _]. rewrite Forall_forall in Hk'. destruct (Hk' _ Hct') as [b Hb].
+      rewrite Hb, Ha', Hb', vltb_tuple2. specialize (Hlt _ Hcu). unfold kz in Hlt. rewrite Ha, Ha' in Hlt.
+      destruct (Z.ltb_spec a a'); [reflexivity|lia].
+Qed.
+
+Definition ex_trie2 : list (value * trie) :=
+  [(VInt 0, TNode [(VInt 1, ex_leaf 1); (VInt 5, ex_leaf 2)]); (VInt 2, TNode [(VInt 0, ex_leaf 3)]);
+   (VInt 3, TNode [(VInt 0, ex_leaf 4); (VInt 5, ex_leaf 5)])].
+
+Example ex_trie2_wf : wf2 ex_trie2.
+Proof.
+  split; [prove_int_sorted|]. repeat constructor; eexists; (split; [reflexivity|]); (split; [prove_int_sorted|discriminate]).
+Qed.
+
+Example flatten1_unflatten1_ex :
+  flatten1 (TNode ex_trie2) =
+    Some (TNode [(VTuple [VInt 0; VInt 1], ex_leaf 1); (VTuple [VInt 0; VInt 5], ex_leaf 2); (VTuple [VInt 2; VInt 0], ex_leaf 3);
+                 (VTuple [VInt 3; VInt 0], ex_leaf 4); (VTuple [VInt 3; VInt 5], ex_leaf 5)]) /\
+  exists t', flatten1 (TNode ex_trie2) = Some t' /\ unflatten1 t' = Some (TNode ex_trie2).
+Proof. split; [vm_compute; reflexivity|]. apply flatten1_unflatten1. exact ex_trie2_wf. Qed.
+
+(* non-emptiness of the children is necessary: an empty child disappears in the flattened fiber *)
+Example flatten1_empty_child_lost :
+  match flatten1 (TNode [(VInt 0, TNode [(VInt 1, ex_leaf 1)]); (VInt 2, TNode [])]) with
+  | Some t' => unflatten1 t' | None => None end = Some (TNode [(VInt 0, TNode [(VInt 1, ex_leaf 1)])]).
+Proof. vm_compute. reflexivity. Qed.
